@@ -19,11 +19,14 @@ NoE == ENone
 Texts == [t1 |-> <<"T">>, t2 |-> <<"<", "b", ">">>, I |-> <<"I">>, J |-> <<"J">>]
 
 \* ---------------- included templates (fixed library)
+\* inc reads x (which may come from any includer up the chain) and w (which only inc2, the intermediate includer, assigns)
 IncScope == << T("text", "I", NoE, ""), T("if", "", X, ""), T("print", "", X, ""), T("end", "", NoE, ""),
+               T("if", "", EVar("w"), ""), T("print", "", EVar("w"), ""), T("end", "", NoE, ""),
                T("set", "x", ELit(<<"i">>), ""), T("setg", "y", ELit(<<"j">>), ""), T("print", "", X, "") >>
 IncData == << T("text", "J", NoE, ""), T("print", "", Dv, ""), T("if", "", Iv, ""), T("print", "", Iv, ""), T("end", "", NoE, "") >>
 \* a template that includes another one: the innermost sees the scopes of the whole chain of includers
-IncNested == << T("text", "J", NoE, ""), T("include", "inc", NoE, ""), T("if", "", Y, ""), T("print", "", Y, ""), T("end", "", NoE, "") >>
+IncNested == << T("text", "J", NoE, ""), T("set", "w", ELit(<<"m">>), ""), T("include", "inc", NoE, ""),
+                T("if", "", Y, ""), T("print", "", Y, ""), T("end", "", NoE, "") >>
 Lib == [inc |-> IncScope, incd |-> IncData, inc2 |-> IncNested]
 
 \* ---------------- alphabets per theme
@@ -34,7 +37,8 @@ Leafs ==
                            T("set", "y", X, ""), T("setg", "x", ELit(<<"g">>), ""), T("include", "inc", NoE, ""), T("include", "inc2", NoE, "")}
     [] Theme = "capture" -> {T("text", "t2", NoE, ""), T("print", "", X, ""), T("print", "", Dv, ""), T("print", "", Iv, ""),
                              T("include", "incd", NoE, ""), T("set", "x", Dv, "")}
-    [] Theme = "global" -> {T("text", "t1", NoE, ""), T("print", "", X, ""), T("print", "", Iv, ""), T("setg", "x", Iv, ""), T("set", "x", Iv, "")}
+    [] Theme = "global" -> {T("text", "t1", NoE, ""), T("print", "", X, ""), T("print", "", Iv, ""), T("setg", "x", Iv, ""), T("set", "x", Iv, ""),
+                            T("print", "", ELoop("index"), "")}
     [] Theme = "escape" -> {T("text", "t2", NoE, ""), T("print", "", Dv, ""), T("print", "", ELit(<<"'", "<">>), ""),
                             T("print", "", ECat(Dv, ELit(<<"&">>)), ""), T("print", "", EFilt("upper", Dv), ""),
                             T("print", "", EFilt("safe", Dv), ""), T("print", "", EFilt("upper", EFilt("safe", Dv)), ""),
